@@ -14,8 +14,8 @@ from extract import ExtractError, skip_angles
 
 
 class Chunk:
-    def __init__(self, pos, text, label=None, order=0):
-        self.pos, self.text, self.label, self.order = pos, text, label, order
+    def __init__(self, pos, text, label=None, order=0, hint=False):
+        self.pos, self.text, self.label, self.order, self.hint = pos, text, label, order, hint
 
 
 class Repl:
@@ -36,6 +36,8 @@ class HintLost(Exception):
 HINTS_OFF = {}     # function name -> message of the lost anchor (filled by dev.load_unit's retry loop)
 FORCE_HINTS_OFF = False   # tools/fragile.py: weave every function without its anchored proof hints
 FORCE_EXCEPT = set()      # ... except these (their contracts mention ghost bindings that the hints declare)
+DROP_ASSERTS = {}         # function name -> [asserted expressions to strip from its hints] (dev.verify_unit: a hint assertion failed)
+DROPPED_ASSERTS = set()   # (function name, expression) actually stripped while weaving
 HINTED = set()            # names of functions that have anchored proof hints (filled while weaving)
 _HINT_RE = re.compile(r'^\s*(proof\s*\{|let\s+ghost\b|assert\b|broadcast\s+use\b)')
 
@@ -181,7 +183,14 @@ class Woven:
     # ---- edits ---------------------------------------------------------------------
     def _ins(self, pos, text, label=None):
         self.root._seq += 1
-        self.chunks.append(Chunk(pos, text, label, self.root._seq))
+        if label is None and self.name() in DROP_ASSERTS and is_hint(text):
+            for expr in DROP_ASSERTS[self.name()]:
+                pat = r'assert\s*\(\s*' + r'\s*'.join(re.escape(tok) for tok in expr.split()) + r'\s*\)\s*;'
+                text, n = re.subn(pat, '', text)
+                if n:
+                    DROPPED_ASSERTS.add((self.name(), expr))
+        # anchored proof-only text (see is_hint): a failing assertion inside it is a failure of the hint, not of the code
+        self.chunks.append(Chunk(pos, text, label, self.root._seq, hint=(label is None and is_hint(text) and 'proof' in text)))
 
     def insert_before_tok(self, idx, text, label=None):
         self._ins(self.ct[idx][2], text, label)
@@ -628,6 +637,8 @@ class Woven:
                 emit('/*-K*/')
                 if ev.label:
                     spans.append((l0, max(l0, l1), ev.label))
+                elif ev.hint:
+                    spans.append((l0, max(l0, l1), 'KV-HINT'))
             else:
                 n = rcount.get(ev.rule, 0)
                 rcount[ev.rule] = n + 1
